@@ -377,6 +377,7 @@ func (x *Exec) mapUpdate(fr *Frame, st *State, in *ssa.MapUpdate) {
 	size := x.ctx.hread(st, mapSizeName(mt), SInt, m.T)
 	kk := x.mapKey(st, k.T, mt.Key())
 	x.noteWrite(st, mapDomName(mt), m.T)
+	x.ctx.assume(st, And(Ge(size, IntLit(0)), Implies(Select(dom, kk), Ge(size, IntLit(1)))))
 	x.ctx.hwrite(st, mapSizeName(mt), SInt, m.T, Ite(Select(dom, kk), size, Add(size, IntLit(1))))
 	x.ctx.hwrite(st, mapDomName(mt), doms, m.T, Store(dom, kk, True))
 	x.ctx.hwrite(st, mapValName(mt), vals, m.T, Store(val, kk, v.T))
@@ -399,6 +400,8 @@ func (x *Exec) lookup(fr *Frame, st *State, in *ssa.Lookup) *Val {
 	val := x.ctx.hread(st, mapValName(mt), vals, m.T)
 	kk := x.mapKey(st, k.T, mt.Key())
 	present := And(Neq(m.T, IntLit(0)), Select(dom, kk))
+	// a map with a key has at least one entry
+	x.ctx.assume(st, Implies(present, Ge(x.ctx.hread(st, mapSizeName(mt), SInt, m.T), IntLit(1))))
 	res := Ite(present, Select(val, kk), TE.zeroValue(mt.Elem()))
 	x.assumeType(st, res, mt.Elem())
 	rv := &Val{T: res, Typ: mt.Elem()}
